@@ -59,6 +59,7 @@ class Unhashable:
 HOSTILE_ATOMS: List[Any] = [
     {"$py": "nan"}, {"$py": "inf"}, {"$py": "-inf"}, {"$py": "negzero"},
     {"$py": "bigint", "v": "1" + "0" * 400}, {"$py": "bigint", "v": "-1" + "0" * 400},
+    {"$py": "pow10", "n": 5000}, {"$py": "pow10", "n": 5000, "neg": True},  # beyond the int <-> str conversion limit (4300 digits)
     {"$py": "bytes", "v": "YWJj"}, {"$py": "bytes", "v": ""},
     {"$py": "tuple", "v": []}, {"$py": "tuple", "v": [1, "a"]},
     {"$py": "set", "v": [1, 2]}, {"$py": "frozenset", "v": ["a"]},
@@ -87,6 +88,8 @@ def decode(e: Any) -> Any:
             return float("-inf")
         if tag == "negzero":
             return -0.0
+        if tag == "pow10":
+            return -(10 ** e["n"]) if e.get("neg") else 10 ** e["n"]
         if tag == "bigint":
             return int(e["v"])
         if tag == "bytes":
@@ -190,8 +193,10 @@ def snapshot(x: Any, depth: int = 0) -> Any:
         return (cls.__name__, id(x), len(x))
     if isinstance(x, float):
         return (cls.__name__, repr(float(x)), math.copysign(1, x) if x == 0 else 0)
+    if isinstance(x, int) and not isinstance(x, bool) and x.bit_length() > 2000:
+        return (cls.__name__, "big", x.bit_length(), hash(x))  # (repr of a huge int hits the interpreter's digit limit)
     if isinstance(x, (int, str, bytes)):
-        return (cls.__name__, x.__class__.__mro__[-2].__call__(x) if False else repr(x)[:80])
+        return (cls.__name__, repr(x)[:80])
     return (cls.__name__, id(x))
 
 
